@@ -208,7 +208,9 @@ func (g *genState) delSet() []int64 {
 		}
 	}
 	if g.rng.Intn(12) == 0 && len(set) > 0 {
-		set[int64(-1-g.rng.Intn(2))] = true // a relative offset among ordinary ones: the whole call is rejected
+		// a relative (negative) offset among ordinary ones: the whole call is rejected - the two named ones and other
+		// negative values (OffsetInvalid = -3 as a failed lookup returns it, arbitrary ones; after seeded change S142)
+		set[[]int64{-1, -2, -1, -2, -3, -3, -4, -7, -1000}[g.rng.Intn(9)]] = true
 	}
 	var S []int64
 	for o := range set {
